@@ -710,6 +710,19 @@ func (s *Store) Bin(op Op, a, b *Term) *Term {
 			return s.SExt(s.Extract(a, w-1, uint16(k)), uint16(k))
 		}
 	}
+	// hard arithmetic over a tiny support becomes an exact lookup table (eval.go)
+	switch op {
+	case OpBvUDiv, OpBvURem, OpBvSDiv, OpBvSRem:
+		if t := s.tabulate(op, a, b); t != nil {
+			return t
+		}
+	case OpBvMul:
+		if a.op != OpConst && b.op != OpConst {
+			if t := s.tabulate(op, a, b); t != nil {
+				return t
+			}
+		}
+	}
 	// canonical order for commutative ops
 	switch op {
 	case OpBvAdd, OpBvMul, OpBvAnd, OpBvOr, OpBvXor:
